@@ -10,11 +10,10 @@ Property theorems only (helpers: `Lemmas/Media.lean`; model: `Model/Media.lean`,
 `cssutils/stylesheets/medialist.py`, `mediaquery.py` and the engine of `prodparser.py` by the correspondence of
 `tools/harness/c17.py`).
 
-One known finding (C17-missing-handback, its repair touches `prodparser.py` and is postponed) restricts one theorem
-to a guarded (`_partial`) form; the guard is the exact region of the finding, the negation of the full statement is
-proved at the witness (`kf_*`), and the full statement is proved for the parser with the proposed repair (`strict`).
-Three former findings are repaired in the repository; their theorems are stated at full strength (`fixed_*` keep
-the old witnesses as regression checks).
+No finding is open. Four former findings are repaired in the repository (the last one, C17-missing-handback, by
+"an incomplete media query in a media list is an error, its token is no longer handed back and lost"); their
+theorems are stated at full strength (`fixed_*` keep the old witnesses as regression checks). `parseL true` is the
+code as it is; `parseL false` is the parser as it was before that repair (kept for the regression witnesses only).
 -/
 namespace CssVerif.C17
 open CssVerif.Media CssVerif.Proto
@@ -129,7 +128,7 @@ theorem new_and_parsed_lists_canonical : Inv {} ∧
   refine ⟨canonV_nil, ?_⟩
   intro m r ft toks h
   unfold ML.setMediaText
-  cases parseL false ft {} toks with
+  cases parseL true ft {} toks with
   | unsupported => exact h
   | bad => cases r <;> exact h
   | ok items =>
@@ -169,19 +168,17 @@ theorem query_ast_round_trip (a : QAst) (hv : a.Valid) (ts : List Tok) (hts : ts
   rw [← parseQ_filter_S, hts]; exact parseQ_ast a hv
 
 /-- a list: every medium of an accepted list is itself a well-formed query (it parses, stand-alone, to itself) —
-one malformed query invalidates the whole list. Proved for the parser with the proposed repair (`strict`). -/
-theorem list_media_wellformed_repaired (ft : Bool) (ts : List Tok) (items : List LItem)
+one malformed query invalidates the whole list. Full strength since the repair of C17-missing-handback (before: only
+under the guard "no `Missing` error was turned into a stop"). -/
+theorem list_media_wellformed (ft : Bool) (ts : List Tok) (items : List LItem)
     (h : parseL true ft {} ts = .ok items) : ∀ q ∈ queries items, parseQ {} q.toks = .ok q :=
   parseL_strict_wf ft ts {} items lwf_init h
 
-/- FULL STATEMENT (refuted at the witness `kf_missing_handback`):
-     parseL false ft {} ts = .ok items → ∀ q ∈ queries items, parseQ {} q.toks = .ok q
-   For the code as it is, under the exact guard "the repaired parser accepts the text too" (no `Missing` error was
-   turned into a stop): -/
-theorem list_media_wellformed_partial (ft : Bool) (ts : List Tok) (items : List LItem)
-    (hg : parseL true ft {} ts = .ok items) :
-    parseL false ft {} ts = .ok items ∧ ∀ q ∈ queries items, parseQ {} q.toks = .ok q :=
-  ⟨parseL_strict_agree ft ts {} items hg, parseL_strict_wf ft ts {} items lwf_init hg⟩
+/-- whatever the parser accepts now, the parser before the repair accepted with the same result: the repair only
+turns lists with an incomplete query into errors -/
+theorem repair_only_rejects (ft : Bool) (ts : List Tok) (items : List LItem)
+    (hg : parseL true ft {} ts = .ok items) : parseL false ft {} ts = .ok items :=
+  parseL_strict_agree ft ts {} items hg
 
 /-! ## T17.3 — the text of a list reparses to an equal list
 
@@ -191,7 +188,7 @@ list is equal up to the place of the comments (a comment between a comma and a q
 query to the query) — that general form is checked by the oracle on the implementation, not proved. -/
 
 /-- a non-empty list of well-formed comment-free queries: parse ∘ serialise = identity, from text and from a token
-list, for the code as it is and with the proposed repair -/
+list (`strict = true`: the code as it is; also for the parser before the repair of C17-missing-handback) -/
 theorem list_round_trip (strict ft : Bool) (q : MQ) (r : List MQ) (hg : ∀ x ∈ q :: r, GoodQ x) :
     parseL strict ft {} (toksL ((q :: r).map LItem.query) true) = .ok ((q :: r).map LItem.query) :=
   parseL_reparse strict ft q r hg
@@ -284,7 +281,7 @@ theorem engine_is_query_automaton (toks : List Tok) (hd : ∀ t ∈ toks, MediaS
 /-- list: for EVERY token list, from text or from a token list, the engine on the captured `MediaList` tree with the
 nested parser on the captured `_partof` query tree and both hand-back channels gives the result of `parseL` -/
 theorem engine_is_list_automaton (ft : Bool) (toks : List Tok) (hd : ∀ t ∈ toks, MediaSim.Dom t) :
-    ProdEngine.engineL Gen.C17Grammar.mediaList Gen.C17Grammar.mediaQueryPartof ft toks = parseL false ft {} toks :=
+    ProdEngine.engineL Gen.C17Grammar.mediaList Gen.C17Grammar.mediaQueryPartof ft toks = parseL true ft {} toks :=
   MediaSim.engineL_eq_parseL ft toks hd
 
 /-- so the property theorems hold for the engine itself, e.g. T17.4: a query accepted by the engine keeps every
@@ -339,22 +336,21 @@ theorem fixed_parse_dedup_case :
       = [.simple wPrint] := by
   decide
 
-/-! ## Known finding C17-missing-handback: the full statement fails at these witnesses (machine-checked) -/
+/-! ## C17-missing-handback (fixed): the old witnesses as regression checks -/
 
-/-- C17-missing-handback: `tv and, print` is accepted although `tv and` is not a query; the repaired parser
-(`strict`) rejects it -/
-theorem kf_missing_handback :
-    (∃ items, parseL false true {} [tIdent wTv, tSpace, tIdent wAnd, tChar cComma, tSpace, tIdent wPrint] = .ok items) ∧
+/-- C17-missing-handback (fixed): `tv and, print` is rejected, as `tv and` is not a query (the parser before the
+repair accepted it) -/
+theorem fixed_missing_handback :
+    parseL true true {} [tIdent wTv, tSpace, tIdent wAnd, tChar cComma, tSpace, tIdent wPrint] = .bad ∧
     parseQ {} [tIdent wTv, tSpace, tIdent wAnd] = .bad ∧
-    parseL true true {} [tIdent wTv, tSpace, tIdent wAnd, tChar cComma, tSpace, tIdent wPrint] = .bad := by
-  refine ⟨⟨_, rfl⟩, by decide, by decide⟩
+    (∃ items, parseL false true {} [tIdent wTv, tSpace, tIdent wAnd, tChar cComma, tSpace, tIdent wPrint] = .ok items) := by
+  refine ⟨by decide, by decide, ⟨_, rfl⟩⟩
 
-/-- C17-missing-handback: from a token list (`@media (color) and tv {`) the token `tv` is silently dropped -/
-theorem kf_missing_handback_drops_token :
-    ∃ q, parseL false false {} [tChar cOpen, tIdent wColor, tChar cClose, tSpace, tIdent wAnd, tSpace, tIdent wTv]
-        = .ok [.query q] ∧
-      q.toks = [tChar cOpen, tIdent wColor, tChar cClose, tIdent wAnd] := by
-  exact ⟨_, rfl, rfl⟩
+/-- C17-missing-handback (fixed): from a token list (`@media (color) and tv {`) the list is rejected; the token
+`tv` is no longer silently dropped -/
+theorem fixed_missing_handback_drops_no_token :
+    parseL true false {} [tChar cOpen, tIdent wColor, tChar cClose, tSpace, tIdent wAnd, tSpace, tIdent wTv] = .bad := by
+  decide
 
 /-! ## Non-vacuity -/
 
